@@ -7,7 +7,7 @@ def cchar(b):
     return "char(%d)" % (b if b < 128 else b - 256)
 
 
-def tu_source(g, gid=None, dflt=(), limits=None, ctx=(), postprec=(), defines=(), noval=(), nvterms=(), tkinds=None, alt_nts=(), ctxref=False):
+def tu_source(g, gid=None, dflt=(), limits=None, ctx=(), postprec=(), defines=(), noval=(), nvterms=(), tkinds=None, alt_nts=(), ctxref=False, reattach=False):
     """g: gram.Grammar.  Terms are typed char terms with the observing functor, every rule gets RuleF{index}."""
     gid = gid or g.name
     o = ['#define %s' % d for d in defines] + ['#include "rt.hpp"', 'using namespace ctpg;', 'using vh::Node;', 'namespace G {',
@@ -53,6 +53,9 @@ def tu_source(g, gid=None, dflt=(), limits=None, ctx=(), postprec=(), defines=()
             # odd rules attach a NAMED functor object (an lvalue), as a user who keeps the functor in a variable does
             named.append('vh::RuleF f%d{%d};' % (ri, ri))
             r = '%s >= f%d' % (r, ri)
+        elif reattach and ri % 2 == 0 and ri not in dflt and ri not in ctx and not nv and not (prec != 0 and not post):
+            # a functor attached with >>= and then REPLACED through >= : the rule is a plain one (no context for the second functor)
+            r = '(%s >>= vh::RuleFC{%d}) >= vh::RuleF{%d}' % (r, ri, ri)
         else:
             r = '%s' % r if ri in dflt else ('%s >>= vh::RuleFC%s{%d}' % (r, nv or ('R' if ctxref and ri % 2 == 0 else ''), ri) if ri in ctx else '%s >= vh::RuleF%s{%d}' % (r, nv, ri))
         if post:
